@@ -744,10 +744,18 @@ func (r *runner) drive(rec *kit.Recorder) {
 	for tr := 0; tr < exact; tr++ {
 		d.exactTrace(tr)
 	}
+	for tr, n := 0, r.env.Pick(12, 100); tr < n; tr++ {
+		d.batchTrace(tr) // multi-item StoreAppendBatch calls (multibatch_test.go)
+	}
 	rounds := r.env.Pick(8, 40)
 	if !c08 {
 		rounds = r.env.Pick(7, 12)
 	}
 	d.saturationTrace("typed", rounds)
 	d.saturationTrace("compat", rounds)
+	if c08 {
+		r.sameIDTwoChannelsProbe() // scripted: one message id, two channels, ONE call (multibatch_test.go)
+		d.cancelTrace("typed", 24+d.rng.Intn(16)) // an append cancelled part-way through the filter rebuild (cancel_test.go)
+		d.cancelTrace("compat", 24+d.rng.Intn(16))
+	}
 }
